@@ -100,8 +100,10 @@ def holds_checksum(structs, tables, name, seen=None):
     return any(step(e) for e in st["enc"])
 
 
-def attribute(cause, features):
+def attribute(cause, features, lang=None):
     for name, feat, pat in CAUSES:
+        if feat == "local-name-clash" and lang in ("go", "python", "cpp"):
+            feat = "local-name-clash/member"      # these three name every local after the MEMBER; Java names a match payload's after its packet
         if feat in features and re.search(pat, cause):
             return "cause/" + name
     return cause
@@ -548,7 +550,7 @@ def run_c17(ctx):
                         model, cause = "mismatch", "mismatch/with-checksum-service/shared-instance"
                         what = "an instance of %s is stored in two places and holds computed members" % ", ".join(T["shared"])
                 if model != "pass" and r is not None:
-                    cause = attribute(cause, r.get("features", []))
+                    cause = attribute(cause, r.get("features", []), lang)
                 if model != "pass" and model != "invalid" and codec_sigs:
                     # the codec of this output deviates from the declared wire format (C01-C06 territory): the failing test is a consequence
                     # … of the reasons given for the packet under test if there are any, the encoder's first (it runs first)
